@@ -499,3 +499,38 @@ func c19LoopCapture(c *Ctx) {
 	ruleLoopCaptureReaching(c, "membership-events", "every resolver callback sees the values of the last host name, e.g. its port",
 		"(*RoundRobinBackend).hostIPChanged", "(*RoundRobinBackend).AddBackend", "(*RoundRobinBackend).RemoveBackend")
 }
+
+// c19NotifyCallers: the known addresses of a host are announced to ALL its subscribers only when name resolution
+// changed them (addressResolved); a pool that subscribes to a host already being resolved is told the known addresses
+// through its own callback alone. Re-announcing to everybody makes the earlier subscribers add a second backend for an
+// address they already have: list and map fall out of step, the address gets a double share and survives its removal.
+func c19NotifyCallers(c *Ctx, rule string) {
+	w := c.w
+	nf := w.Fn("(*DynamicHostResolver).notifyAddressChanged")
+	if nf == nil {
+		c.undecided(rule, "resolver/notify-callers", "-", "(*DynamicHostResolver).notifyAddressChanged not found")
+		return
+	}
+	good := true
+	who := ""
+	n := 0
+	for _, fn := range w.All {
+		for _, cs := range w.callsIn(fn, "(*DynamicHostResolver).notifyAddressChanged") {
+			n++
+			if w.fname(fn) != "(*DynamicHostResolver).addressResolved" {
+				good = false
+				who = w.fname(fn) + " at " + w.ipos(cs.In)
+			}
+		}
+	}
+	c.check(good && n > 0, rule, "resolver/notify-callers", w.pos(nf.Pos()), "all subscribers are notified from addressResolved only", "notifyAddressChanged (every subscriber of the host) is also called from "+who+": subscribers that already hold these addresses add them a second time")
+	if rh := c.fn(rule, "(*DynamicHostResolver).ResolveHost"); rh != nil {
+		okDyn := true
+		for _, cs := range w.callsIn(rh, "dyn") {
+			if !isParam(rh, cs.In.Common().Value, 2) {
+				okDyn = false
+			}
+		}
+		c.check(okDyn, rule, "ResolveHost/only-the-new-subscriber", w.pos(rh.Pos()), "a late subscriber alone is told the known addresses", "ResolveHost invokes a callback other than the one being registered")
+	}
+}
